@@ -156,6 +156,7 @@ def run(ctx):
   fi = ctx.func(SL + ':_extract_subsequences')
   first_boundary(ctx, fi)
   unit_advance(ctx, fi)
+  carry_after_break(ctx, fi)
   rebuild(ctx, fi)
   loops = locate_loops(ctx, fi)
   boundaries(ctx, fi, loops)
@@ -278,6 +279,50 @@ def unit_advance(ctx, fi):
       ctx.ob('STATE/unit-advance', fi, s, ranged, 'the pieces in between are visited by a range loop' if ranged else
              '%s moves the piece index to where the event falls without visiting the pieces in between: they receive no carried state at their beginning '
              '(a pedal held across several pieces is only written into the piece of the next pedal event)' % norm_text(s), construct='piece index advances one piece at a time', definite=True)
+
+
+def carry_after_break(ctx, fi, rule='STATE/carry-after-break'):
+  """Location-independent: a state-carrying traversal of _extract_subsequences ends by writing the state in force into every piece
+  that no event opened.  When that closing step is the `else` branch of the `for`, a `break` skips it; a break taken under a
+  condition that says nothing about the piece index (how many pieces have been opened) then leaves the remaining pieces - possibly
+  all of them - without the state in force at their start."""
+  fn = fi.node
+  n = 0
+  for lp in ast.walk(fn):
+    if not (isinstance(lp, ast.For) and isinstance(lp.iter, ast.Call) and dotted(lp.iter.func) == 'sorted'):
+      continue
+    var = lp.target.id if isinstance(lp.target, ast.Name) else None
+    carries = var is not None and any(isinstance(s, ast.Assign) and isinstance(s.value, ast.Name) and s.value.id == var and
+                                      isinstance(s.targets[0], (ast.Name, ast.Subscript)) for s in U.walk_stmts(lp))
+    if not carries:
+      continue
+    n += 1
+    cons = 'the closing carry of the traversal at line %d runs after every exit of the loop' % lp.lineno
+    writes_in_else = [c for s_ in lp.orelse for c in ast.walk(s_) if isinstance(c, ast.Call) and isinstance(c.func, ast.Attribute) and c.func.attr in ('extend', 'append', 'add', 'CopyFrom', 'MergeFrom')]
+    if not writes_in_else:
+      ctx.ob(rule, fi, lp, True, 'the traversal has no else branch that writes pieces: what follows the loop runs after a break as well', construct=cons)
+      continue
+    idx = set(x.id for s_ in lp.orelse for x in ast.walk(s_) if isinstance(x, ast.Name) and isinstance(x.ctx, ast.Load)) & \
+        set(t.id for s_ in U.walk_stmts(lp) for t in ([s_.target] if isinstance(s_, ast.AugAssign) else []) if isinstance(t, ast.Name))
+    breaks = [b for b in ast.walk(lp) if isinstance(b, ast.Break) and U.enclosing_loops(fn, b) and U.enclosing_loops(fn, b)[-1] is lp]
+    bad = []
+    for b in breaks:
+      conds = U.path_conditions(lp, b)
+      if not any(isinstance(x, ast.Name) and x.id in idx for t, _p in conds for x in ast.walk(t)):
+        bad.append((b, conds))
+    if not breaks:
+      ctx.ob(rule, fi, lp, True, 'no break leaves the traversal: the else branch always runs', construct=cons)
+    elif bad and idx:
+      b, conds = bad[0]
+      ctx.ob(rule, fi, b, False, 'the carry-forward into the pieces no event opened is the `else` branch of the loop, which a break skips; the break at line %d is taken when %s, a condition that '
+             'does not involve the piece index %s: an event after the last split time ends the traversal while pieces (all of them, if it comes first) have not received the '
+             'state in force at their start' % (b.lineno, ' and '.join(('' if p else 'not ') + norm_text(t) for t, p in conds) or 'reached', '/'.join(sorted(idx))), construct=cons, definite=True)
+    else:
+      why = 'cannot classify: whether the breaks of the traversal at line %d leave pieces without the closing carry (it is in the else branch)' % lp.lineno
+      ctx.ob(rule, fi, lp, False, why, construct=cons, unknown=why)
+  if n == 0:
+    why = 'cannot classify: no state-carrying sorted traversal found in _extract_subsequences'
+    ctx.ob(rule, fi, fn, False, why, construct='closing carry after every exit', unknown=why)
 
 
 # ------------------------------------------------------------------ S2
